@@ -896,7 +896,11 @@ def _factorize_single(by, expect, *, sort: bool, reindex: bool) -> tuple[pd.Inde
         idx = flat.copy()
         found_groups = cast(pd.Index, expect)
         # TODO: fix by using masked integers
-        idx[idx > expect[-1]] = -1
+        if len(expect) > 0:
+            idx[idx > expect[-1]] = -1
+        else:
+            # no groups at all (e.g. every label is missing)
+            idx[:] = -1
 
     elif isinstance(expect, pd.IntervalIndex):
         if expect.closed == "both":
